@@ -17,7 +17,9 @@ Kind(x) == x
 C13_NoPanic       == IsOp => NoPanicP(Ev.res)
 C13_ErrorReported == IsOp => ErrorReportedP(Ev.log, Ev.res)
 C13_NoWedge       == IsOp => NoWedgeP(G, O(Ev), Ev.res, Ev.val, Ev.log)
-C13_EndedOnce     == IsOp => EndedOnceP(GAfter, Ev.open) /\ ~Ev.twice
+C13_EndedOnce     == IsOp => EndedOnceP(GAfter, Ev.open)
+\* ... and never twice: no statement, COMMIT or ROLLBACK reaches a transaction that is already over (the server log says so)
+C13_NotEndedTwice == IsOp => ~Ev.twice /\ NotEndedTwiceP(Ev.log)
 C13_Multi         == IsOp => MultiP(G, O(Ev), Ev.res, Ev.log)
 \* Ev.durable: the committed content of the server after the operation (what a fresh handle would read), per key
 C13_NoUnackedDurable == IsOp => NoUnackedDurableP(GAfter, Ev.durable)
